@@ -315,7 +315,10 @@ def attach(model):
                 rec.upd_phase = p
                 rec.upd_table_slot = p
                 rec.cur['upd'][p] = dict(table=[], xaNew=np.zeros(0), xbNew=np.zeros(0), regrow=rec.new_eval())
-                return o_adj(check)
+                out = o_adj(check)
+                # the distribution right after extension / re-mesh, before the classes below the thresholds are zeroed
+                rec.cur.setdefault('adj', {})[p] = (_cp(pbm.PSD), _cp(pbm.PSDsize), bool(out[0]))
+                return out
             origs.append((pbm, o_adj))
             pbm.adjustSizeClassesEuler = adj
         try:
@@ -616,6 +619,18 @@ def scenario(name, rng):
         return kwnruns.build_binary(infinite=False, vratio=rng.choice([1.0, 1.2]), **small), 3600 * 5
     if name == 'alzr-loaded':
         return kwnruns.build_loaded_binary(rng, vratio=rng.choice([1.0, 1.3])), 3600 * 5
+    if name == 'alzr-loaded-dilute':
+        # few, coarse particles close to the top of a small grid: the grid is extended and re-meshed while the particle volume is tiny
+        m = kwnruns.build_binary(x0=rng.uniform(3e-3, 4e-3), bins=40, minBins=30, maxBins=50, cMax=4e-9)
+        m.setup()
+        r1 = rng.uniform(3.0e-9, 3.6e-9); amp = 10 ** rng.uniform(15.5, 17)
+
+        def few(r):
+            n = amp * np.exp(-((r - r1) / 0.25e-9) ** 2)
+            n[n < 1] = 0
+            return n
+        m.PBM[0].LoadDistributionFunction(few)
+        return m, 3600 * 5
     if name == 'alzr-noniso':
         m = kwnruns.build_binary(**small)
         T0 = rng.uniform(715, 730)
@@ -680,11 +695,12 @@ def _one(ctx, res, prop, name, cap, observer, oracles=()):
         solver = 'rk4' if 'rk4' in opts else 'euler'
         if '2solves' in opts:
             # two solve calls; the first one ends by itself (short simulated time), the second runs into the step cap
-            first = ctx.rng.uniform(0.03, 0.3)
-            n1 = kwnruns.run(m, first, solver=solver, max_steps=cap // 2, observer=observer)
+            # the first call ends by itself at its own end time; for Al-Zr it is long enough for precipitates to exist at the boundary
+            first = ctx.rng.uniform(60.0, 200.0) if name.startswith('alzr') and 'loaded' not in name else ctx.rng.uniform(0.05, 0.3)
+            n1 = kwnruns.run(m, first, solver=solver, observer=observer)
             m._verif_obs = False      # a fresh step counter for the second call
             m.couplingModels = [c for c in m.couplingModels if type(c).__name__ != 'Obs']
-            kwnruns.run(m, simt, solver=solver, max_steps=max(cap - n1, 5), observer=observer)
+            kwnruns.run(m, simt, solver=solver, max_steps=cap, observer=observer)
         else:
             kwnruns.run(m, simt, solver=solver, max_steps=cap, observer=observer)
         cfg = config(m)
@@ -774,21 +790,20 @@ def step_oracles(res, rec, cfg, name, which):
                         bad = 'boundaries do not run from the stated minimum to the stated maximum'
                     if bad:
                         res.violate('composed:grid-inconsistent', 'stored size-class grid after an accepted step: ' + bad, dict(case, phase=p))
-                if 'volume' in which and st.get('xNew') is not None:
-                    yp = post['hist'][0]['ph'][p]
-                    reset = yp['dG'] < 0 and not np.any(np.asarray(yp['xEqA']))
+                if 'volume' in which and st.get('xNew') is not None and p in st.get('adj', {}):
+                    # third moment right after UpdatePBMEuler + adjustSizeClassesEuler (before the zeroing below the thresholds) against
+                    # the third moment of the truncated state the recorded row was computed from: extension keeps it, re-mesh rescales to it
+                    apsd, asize, changed = st['adj'][p]
                     pp, x = pre['ph'][p], np.asarray(st['xNew'][p], dtype=float)
-                    if not reset and len(x) == len(pp['size']):
+                    if len(x) == len(pp['size']):
                         r3 = np.asarray(pp['size']) ** 3
                         xz = x.copy(); xz[:pp['rdfIdx'] + 1] = 0; xz[np.asarray(pp['size']) < cfg['minRadius']] = 0
                         vol_state = float(np.sum(np.where(xz < 1, 0.0, xz) * r3))
-                        vol_store = float(np.sum(psd * sz ** 3))
-                        slack = float(np.sum(r3[(xz < 1)])) + float(np.sum(sz[:ph['rdfIdx'] + 1] ** 3 * psd[:ph['rdfIdx'] + 1]))
-                        # classes zeroed AFTER a table rebuild inside the update (new RdrivingForceIndex) are part of the documented removal
-                        if ph['rdfIdx'] == pp['rdfIdx'] and not vlib.close(vol_state, vol_store, 1e-9, scale=slack):
-                            res.violate('composed:stored-volume-differs', 'third moment of the stored distribution after the step (incl. extension / re-mesh) '
-                                        'differs from that of the state the recorded row was computed from', dict(case, phase=p, bins=(pp['bins'], ph['bins'])),
-                                        vol_store, vol_state)
+                        vol_store = float(np.sum(apsd * asize ** 3))
+                        if vol_store > 0 and not vlib.close(vol_state, vol_store, 1e-9):
+                            res.violate('composed:stored-volume-differs', 'third moment of the distribution after UpdatePBMEuler and the extension / re-mesh of the '
+                                        'step differs from that of the (truncated) state the recorded row was computed from',
+                                        dict(case, phase=p, bins=(pp['bins'], ph['bins']), grid_changed=changed), vol_store, vol_state)
         if 'continuity' in which and i + 1 < len(steps) and steps[i + 1]['seq'] == st['seq'] + 1:
             d = _eq_state(post, steps[i + 1]['pre'])
             if d:
